@@ -252,7 +252,7 @@ Inductive why :=
 | WInvalidPassword | WNoPool | WAuthImpossible | WPassthrough | WRefetchFailed | WPoolDown | WTls.
 
 Inductive outcome :=
-| Admitted (db name : bytes)
+| PoolAdmitted (db name : bytes)
 | AdminAdmitted
 | Rejected (w : why)
 | TaskPanic
@@ -333,8 +333,8 @@ Definition mk (o : outcome) (rs : list reply) (ev : list event) (c : option byte
 (** client.rs:719-753: validate the pool if needed, then AuthenticationOk etc. *)
 Definition finish_user (e : auth_env) (db name : bytes) (pre : list reply) (ev : list event)
            (c : option bytes) : result :=
-  if validated e then mk (Admitted db name) (pre ++ auth_tail) ev c
-  else if validate_ok e then mk (Admitted db name) (pre ++ auth_tail) (ev ++ [EvValidate db name]) c
+  if validated e then mk (PoolAdmitted db name) (pre ++ auth_tail) ev c
+  else if validate_ok e then mk (PoolAdmitted db name) (pre ++ auth_tail) (ev ++ [EvValidate db name]) c
   else mk (Rejected WPoolDown) (pre ++ [RError (EPoolDown db name); RReadyForQuery]) (ev ++ [EvValidate db name]) c.
 
 (** [refetch_auth_hash(&pool)]: contacts a server only if the pool has an AuthPassthrough. *)
